@@ -81,12 +81,40 @@ Definition nd_site_key (x : nd_site) : string := fst (fst x).
 Definition nd_site_class (x : nd_site) : nd_class := snd x.
 
 Definition nd_class_independent (c : nd_class) : bool :=
-  match c with ClOrderFree | ClCollectSort | ClExistsCheck => true | _ => false end.
+  match c with ClOrderFree | ClCollectSort | ClExistsCheck | ClFanInOrdered | ClFanInConst => true | _ => false end.
 
 Definition nd_allowed (k : string) : bool := existsb (fun a => String.eqb (fst (fst a)) k) gen_nd_allow.
 
-(* every site is in a class with an independence lemma, or is listed (justified harmless, or a known finding) *)
-Definition nd_site_ok (x : nd_site) : bool := (nd_class_independent (nd_site_class x) || nd_allowed (nd_site_key x))%bool.
+Fixpoint nd_cond_of (l : list (string * string)) (k : string) : string :=
+  match l with
+  | [] => ""
+  | (k', c) :: tl => if String.eqb k' k then c else nd_cond_of tl k
+  end.
+
+Definition nd_fan_in_no_item_id : string := "fan-in-no-item-id".
+
+(* what an allow-list entry must say for the class of its site: an entry for a fan-in call whose error text depends
+   on loaded data relies on the side condition "the text does not mention the item" (checked by the translator:
+   when it fails the class becomes ClFanInItem); for ClFanInItem only a confirmed finding can be listed *)
+Definition nd_entry_fits (x : nd_site) : bool :=
+  match nd_site_class x with
+  | ClFanInValue => String.eqb (nd_cond_of gen_nd_allow_cond (nd_site_key x)) nd_fan_in_no_item_id
+  | ClFanInItem => existsb (fun a => (String.eqb (fst (fst a)) (nd_site_key x) &&
+                                      match snd (fst a) with AlFinding => true | _ => false end)%bool) gen_nd_allow
+  | _ => true
+  end.
+
+(* every site is in a class with an independence lemma, or is listed (justified harmless, or a known finding) with
+   an entry that fits its class *)
+Definition nd_site_ok (x : nd_site) : bool :=
+  (nd_class_independent (nd_site_class x) || (nd_allowed (nd_site_key x) && nd_entry_fits x))%bool.
 
 Definition nd_findings : list string :=
   map (fun a => fst (fst a)) (filter (fun a => match snd (fst a) with AlFinding => true | _ => false end) gen_nd_allow).
+
+(* ---------- fan-in: one goroutine per item, the first error to arrive is returned ---------- *)
+
+(* GetItemsByIDs: errors other than "value not present" go through a plain error channel; the caller receives the
+   one that was sent first. [arrival] is the order in which the goroutines finish (a permutation of the items,
+   chosen by the scheduler); err gives the error of an item as a token of its text *)
+Definition nd_fanin_first (E : Type) (err : E -> option Z) (arrival : list E) : option Z := nd_first_error E err arrival.
